@@ -186,9 +186,11 @@ def _u10_from_bulk_rate_point(
                 u10,
                 args,
                 (0, np.inf),
-                atol=atol,
-                rtol=rtol,
-                numerical_stepsize=numerical_stepsize,
+                100,
+                True,
+                atol,
+                rtol,
+                numerical_stepsize,
             )
         except:
             u10 = np.nan
